@@ -581,6 +581,8 @@ class Type:
         self._constructor_fn = lambda: attr.make_class(
             name, fields, bases=(FeatureStructure,), slots=True, eq=False, order=False
         )
+        # Drop a constructor built before the feature set changed, it does not know the new features
+        self._constructor = None
 
     def __call__(self, **kwargs) -> FeatureStructure:
         """Creates an feature structure of this type
